@@ -27,6 +27,149 @@ type gen struct {
 	eofComment string // a comment after the last token, ending the file without newline
 	bulkDone   bool   // the unit already has its bulk member
 	nbService  bool   // the unit imports zz.nb.NbService of the 3-file project and implements it
+	// declarations and their uses (see scope.go part below)
+	scope     []declared // variables declared so far that are visible at the current position, innermost last
+	imported  []string   // simple names of the unit's single-type imports
+	lastShape string     // shape of the type emitted last by typeType / refType
+	lastAnn   bool       // ... and whether it began with a type annotation
+	tdepth    int        // nesting of the type being emitted (type arguments of type arguments ...)
+	lastUse   *declared  // the primary emitted last is this declared variable (nil: it is something else)
+}
+
+// declared is a variable the unit has declared: a use site may name it instead of a name from the pool,
+// so that the tool's symbol tables (parameters, local variables, fields) are hit on purpose.
+type declared struct {
+	name  string
+	kind  string // parameter | local | field | forVariable | catchParameter | resource | lambdaParameter | patternVariable | recordComponent
+	shape string // shape of the declared type: simple, primitive, typeArguments, qualified, qualifiedTypeArguments, nested, nestedTypeArguments, innerOfGeneric, innerOfGenericTypeArguments, array, var, untyped
+	ann   bool   // the declared type began with a type annotation
+}
+
+func (g *gen) mark() int { return len(g.scope) }
+
+func (g *gen) release(m int) { g.scope = g.scope[:m] }
+
+// declare records name as a variable of the given kind whose type is the one emitted last.
+func (g *gen) declare(name, kind string) { g.declareAs(name, kind, g.lastShape, g.lastAnn) }
+
+func (g *gen) declareAs(name, kind, shape string, ann bool) {
+	for _, k := range ctxKeywords {
+		if k == name { // never used as a simple name inside expressions
+			return
+		}
+	}
+	g.scope = append(g.scope, declared{name: name, kind: kind, shape: shape, ann: ann})
+}
+
+// vname is a simple name in an expression: a variable declared earlier and still visible (one of the six
+// innermost; 0 = the innermost), else a name from the pool as before. resolved: the position is one whose
+// declared type the full pass looks up (receiver of a call, target of a method reference). pct: how often
+// (in 100) a declared variable is taken when there is one.
+func (g *gen) vname(resolved bool, pct int) string {
+	g.lastUse = nil
+	if len(g.scope) == 0 || !g.chance(pct) {
+		return g.sname()
+	}
+	k := len(g.scope)
+	if k > 6 {
+		k = 6
+	}
+	d := g.scope[len(g.scope)-1-g.n(k)]
+	if resolved && g.chance(50) {
+		// rather an object of a library type than a counter: the innermost variable whose declared type is
+		// more than a simple name, when there is one
+		for i := len(g.scope) - 1; i >= 0; i-- {
+			if sh := g.scope[i].shape; sh != "simple" && sh != "primitive" && sh != "untyped" && sh != "var" {
+				d = g.scope[i]
+				break
+			}
+		}
+	}
+	g.lastUse = &d
+	g.use("use.declaredVariable")
+	switch d.kind {
+	case "parameter":
+		g.use("use.ofParameter")
+	case "local":
+		g.use("use.ofLocal")
+	case "field":
+		g.use("use.ofField")
+	case "forVariable":
+		g.use("use.ofForVariable")
+	case "catchParameter":
+		g.use("use.ofCatchParameter")
+	case "resource":
+		g.use("use.ofResource")
+	case "lambdaParameter":
+		g.use("use.ofLambdaParameter")
+	case "patternVariable":
+		g.use("use.ofPatternVariable")
+	case "recordComponent":
+		g.use("use.ofRecordComponent")
+	default:
+		panic("c09: unknown kind of declared variable " + d.kind)
+	}
+	if resolved {
+		g.resolvedUse(&d)
+	}
+	return d.name
+}
+
+// resolvedUse labels a use whose declared type the tool resolves, by the shape of that type.
+func (g *gen) resolvedUse(d *declared) {
+	if d == nil {
+		return
+	}
+	g.use("receiver.declared")
+	if d.ann {
+		g.use("receiver.declaredAs.annotatedType")
+	}
+	switch d.shape {
+	case "simple":
+		g.use("receiver.declaredAs.simple")
+	case "primitive":
+		g.use("receiver.declaredAs.primitive")
+	case "typeArguments":
+		g.use("receiver.declaredAs.typeArguments")
+	case "qualified":
+		g.use("receiver.declaredAs.qualified")
+	case "qualifiedTypeArguments":
+		g.use("receiver.declaredAs.qualifiedTypeArguments")
+	case "nested":
+		g.use("receiver.declaredAs.nested")
+	case "nestedTypeArguments":
+		g.use("receiver.declaredAs.nestedTypeArguments")
+	case "innerOfGeneric":
+		g.use("receiver.declaredAs.innerOfGeneric")
+	case "innerOfGenericTypeArguments":
+		g.use("receiver.declaredAs.innerOfGenericTypeArguments")
+	case "array":
+		g.use("receiver.declaredAs.array")
+	case "var":
+		g.use("receiver.declaredAs.var")
+	case "untyped":
+		g.use("receiver.declaredAs.untyped")
+	default:
+		panic("c09: unknown shape of a declared type " + d.shape)
+	}
+}
+
+// typeUseName is a type name at a use site: now and then the simple name of one of the unit's imports or
+// the name of an enclosing class (the names the full pass resolves), else def.
+func (g *gen) typeUseName(def string) string {
+	switch g.pickW(16, 3, 2) {
+	case 1:
+		if len(g.imported) > 0 {
+			g.use("typeName.imported")
+			return g.imported[g.n(len(g.imported))]
+		}
+	case 2:
+		if len(g.cls) > 0 {
+			g.use("typeName.enclosingClass")
+			return g.cls[len(g.cls)-1-g.n(len(g.cls))]
+		}
+	}
+	return def
 }
 
 func newGen(t *rapid.T) *gen {
@@ -49,6 +192,27 @@ func (g *gen) chance(pct int) bool {
 // pickW draws an index with the given weights; out of fuel or too deep it returns 0.
 func (g *gen) pickW(w ...int) int {
 	if g.fuel <= 0 || g.depth > 9 {
+		return 0
+	}
+	total := 0
+	for _, x := range w {
+		total += x
+	}
+	r := rapid.IntRange(0, total-1).Draw(g.t, "w")
+	for i, x := range w {
+		if r < x {
+			return i
+		}
+		r -= x
+	}
+	return 0
+}
+
+// pickT is pickW for the shape of a type: the outermost type of a declaration is drawn even when the unit is
+// out of fuel or deep (a type is a few tokens and cannot recurse: its type arguments are then plain), a type
+// nested in type arguments only while the unit is rich, and never below three levels.
+func (g *gen) pickT(w ...int) int {
+	if g.tdepth > 2 || (g.tdepth > 0 && !g.rich()) {
 		return 0
 	}
 	total := 0
@@ -479,46 +643,43 @@ func (g *gen) typeType(ann, arr bool) {
 	defer func() { g.depth-- }()
 	g.fuel--
 	kind := -1
+	annotated := false
 	if ann && g.rich() && g.chance(8) {
 		g.use("typeType.annotated")
+		annotated = true
 		if g.annotation(true) {
 			kind = 0 // `pkg.@Ann Name`: the annotation qualifies a simple type name
 		}
 	}
 	if kind < 0 {
-		kind = g.pickW(6, 4, 3, 2, 1)
+		kind = g.pickT(6, 4, 3, 3, 1, 3)
 	}
+	g.tdepth++
+	defer func() { g.tdepth-- }()
+	shape := "simple"
 	switch kind {
 	case 0:
 		g.use("classOrInterfaceType.simple")
-		g.w([]string{"String", "Object", "Foo", "T"}[g.n(4)])
+		g.w(g.typeUseName([]string{"String", "Object", "Foo", "T"}[g.n(4)]))
 	case 1:
 		g.use("typeType.primitive")
 		g.w(primitives[g.n(len(primitives))])
+		shape = "primitive"
 	case 2:
 		g.use("classOrInterfaceType.typeArguments")
-		g.w(g.tname())
+		g.w(g.typeUseName(g.tname()))
 		g.typeArguments()
+		shape = "typeArguments"
 	case 3:
-		g.use("classOrInterfaceType.qualified")
-		g.qualifiedName(2)
-		g.glue(".")
-		g.glue(g.tname())
-		if g.chance(30) {
-			g.typeArguments()
-		}
+		shape = g.qualifiedType(45)
 	case 4:
-		g.use("classOrInterfaceType.innerOfGeneric")
-		g.w(g.tname())
-		g.typeArguments()
-		g.glue(".")
-		g.glue(g.tname())
-		if g.chance(50) {
-			g.typeArguments()
-		}
+		shape = g.innerOfGenericType(50)
+	case 5:
+		shape = g.nestedTypeName(50)
 	}
 	if arr && g.rich() && g.chance(15) {
 		g.use("typeType.array")
+		shape = "array"
 		k := 1 + g.n(2)
 		for i := 0; i < k; i++ {
 			if ann && g.chance(10) {
@@ -529,6 +690,55 @@ func (g *gen) typeType(ann, arr bool) {
 			g.glue("]")
 		}
 	}
+	g.lastShape, g.lastAnn = shape, annotated
+}
+
+// qualifiedType: `a.b.T`, `a.b.T<X>` (the first '<' comes after a dot), `a.b.Outer.Inner<X>`
+func (g *gen) qualifiedType(pctArgs int) string {
+	g.use("classOrInterfaceType.qualified")
+	g.qualifiedName(2)
+	g.glue(".")
+	g.glue(g.tname())
+	if g.chance(15) {
+		g.use("classOrInterfaceType.qualifiedNested")
+		g.glue(".")
+		g.glue(g.tname())
+	}
+	if g.chance(pctArgs) {
+		g.use("classOrInterfaceType.qualifiedTypeArguments")
+		g.typeArguments()
+		return "qualifiedTypeArguments"
+	}
+	return "qualified"
+}
+
+// innerOfGenericType: `A<X>.B`, `A<X>.B<Y>`
+func (g *gen) innerOfGenericType(pctArgs int) string {
+	g.use("classOrInterfaceType.innerOfGeneric")
+	g.w(g.typeUseName(g.tname()))
+	g.typeArguments()
+	g.glue(".")
+	g.glue(g.tname())
+	if g.chance(pctArgs) {
+		g.use("classOrInterfaceType.innerOfGenericTypeArguments")
+		g.typeArguments()
+		return "innerOfGenericTypeArguments"
+	}
+	return "innerOfGeneric"
+}
+
+// nestedTypeName: a member type named through its outer type, `Map.Entry`, `Map.Entry<K, V>`
+func (g *gen) nestedTypeName(pctArgs int) string {
+	g.use("classOrInterfaceType.nested")
+	g.w(g.typeUseName(g.tname()))
+	g.glue(".")
+	g.glue(g.tname())
+	if g.chance(pctArgs) {
+		g.use("classOrInterfaceType.nestedTypeArguments")
+		g.typeArguments()
+		return "nestedTypeArguments"
+	}
+	return "nested"
 }
 
 // refType is a class or interface type (no primitives, no arrays): extends/implements/throws-like places
@@ -537,35 +747,37 @@ func (g *gen) refType(ann bool) {
 	defer func() { g.depth-- }()
 	g.fuel--
 	kind := -1
+	annotated := false
 	if ann && g.rich() && g.chance(6) {
 		g.use("typeType.annotated")
+		annotated = true
 		if g.annotation(true) {
 			kind = 0
 		}
 	}
 	if kind < 0 {
-		kind = g.pickW(6, 3, 2, 1)
+		kind = g.pickT(6, 3, 2, 1, 2)
 	}
+	g.tdepth++
+	defer func() { g.tdepth-- }()
+	shape := "simple"
 	switch kind {
 	case 0:
 		g.use("classOrInterfaceType.simple")
-		g.w(g.tname())
+		g.w(g.typeUseName(g.tname()))
 	case 1:
 		g.use("classOrInterfaceType.typeArguments")
-		g.w(g.tname())
+		g.w(g.typeUseName(g.tname()))
 		g.typeArguments()
+		shape = "typeArguments"
 	case 2:
-		g.use("classOrInterfaceType.qualified")
-		g.qualifiedName(2)
-		g.glue(".")
-		g.glue(g.tname())
+		shape = g.qualifiedType(45)
 	case 3:
-		g.use("classOrInterfaceType.innerOfGeneric")
-		g.w(g.tname())
-		g.typeArguments()
-		g.glue(".")
-		g.glue(g.tname())
+		shape = g.innerOfGenericType(30)
+	case 4:
+		shape = g.nestedTypeName(50)
 	}
+	g.lastShape, g.lastAnn = shape, annotated
 }
 
 func (g *gen) typeArguments() {
@@ -667,10 +879,16 @@ func (g *gen) typeParameters() {
 	g.w(">")
 }
 
-func (g *gen) dims(pct int, label string) {
+func (g *gen) dims(pct int, label string) { g.dimsN(pct, label) }
+
+// dimsN is dims and tells how many dimensions it has written.
+func (g *gen) dimsN(pct int, label string) int {
+	n := 0
 	for i := 0; i < 2 && g.chance(pct); i++ {
 		g.use(label)
 		g.w("[")
 		g.glue("]")
+		n++
 	}
+	return n
 }
